@@ -56,6 +56,43 @@ def special(rng, w):
     return w
 
 
+def diagnostics_corpus():
+    """failing hunks whose best partial match sits at the edges of the file - what the failure diagnostics (only run
+    without -q) have to cope with"""
+    F = lambda d: (d, 0o644)
+    out = []
+    mk = lambda files, patch: {"files": files, "dirs": [], "applied": None, "series": b"p.patch\n", "patches": {b"p.patch": patch}}
+    body = b"".join(b"l%d\n" % i for i in range(1, 9))
+    def hunk(start, old, new):
+        return b"--- a/f\n+++ b/f\n@@ -%d,%d +%d,%d @@\n" % (start, len(old), start, len(new)) + b"".join(
+            (b"-" if k == "-" else b"+" if k == "+" else b" ") + t + b"\n" for k, t in zip_kinds(old, new))
+    def zip_kinds(old, new):
+        res = [(" ", old[0])] if old and new and old[0] == new[0] else []
+        rest_old = old[1:] if res else old
+        rest_new = new[1:] if res else new
+        return res + [("-", t) for t in rest_old] + [("+", t) for t in rest_new]
+    # the file lost its first lines: the hunk's 2nd/3rd line is file line 1
+    out.append(mk({b"f": F(b"l2\nl3\nl4\n")}, hunk(1, [b"l1", b"l2", b"l3", b"X"], [b"l1", b"l2", b"l3", b"Y"])))
+    out.append(mk({b"f": F(b"l3\nl4\n")}, hunk(1, [b"l1", b"l2", b"l3", b"X"], [b"l1", b"Y"])))
+    # hunk longer than the file; one-line file; empty file
+    out.append(mk({b"f": F(b"l1\n")}, hunk(1, [b"l1", b"l2", b"l3", b"l4", b"l5"], [b"l1", b"Z"])))
+    out.append(mk({b"f": F(b"")}, hunk(1, [b"a", b"b"], [b"a", b"c"])))
+    # match hanging over the end of the file; far-away stated line
+    out.append(mk({b"f": F(body)}, hunk(7, [b"l7", b"l8", b"l9", b"l10"], [b"l7", b"Q"])))
+    out.append(mk({b"f": F(body)}, hunk(4000, [b"l7", b"nope"], [b"l7", b"Q"])))
+    # two failing entries for one file, and a failing entry after one that applied to the same file
+    two = hunk(1, [b"l1", b"X"], [b"l1", b"Y"]) + hunk(5, [b"l5", b"X"], [b"l5", b"Y"])
+    out.append(mk({b"f": F(body)}, two))
+    out.append(mk({b"f": F(body)}, hunk(1, [b"l1", b"l2"], [b"l1", b"L2"]) + hunk(1, [b"l1", b"l2"], [b"l1", b"again"])))
+    # missing file, reversed entry that fails, rename onto an existing file
+    out.append(mk({b"g": F(body)}, hunk(1, [b"l1", b"l2"], [b"l1", b"L2"])))
+    w = mk({b"f": F(body)}, hunk(1, [b"l1", b"nope"], [b"l1", b"L2"]))
+    w["series"] = b"p.patch -R\n"
+    out.append(w)
+    out.append(mk({b"f": F(body), b"g": F(b"x\n")}, b"diff --git a/f b/g\nsimilarity index 100%\nrename from f\nrename to g\n"))
+    return out
+
+
 def run_located(ctx, w, cfg, rng):
     """the location options: the same push started from another directory with -d <tree> (absolute or relative), and
     with the patches in a differently named directory given by -p"""
@@ -87,16 +124,20 @@ def run(ctx):
     hist = ctx.coverage.setdefault("input_histogram", collections.Counter())
     cases, reals = [], []
     bad = 0
-    for _ in range(n):
-        w = special(rng, l3gen.gen_workspace(rng, fail_prob=0.45))
+    todo = diagnostics_corpus() + [None] * n
+    for item in todo:
+        w = item if item is not None else special(rng, l3gen.gen_workspace(rng, fail_prob=0.45))
         cfg = l3common.rand_cfg(rng, threads=(1, 1, 2, 4))
         cfg["extra"] = ["-q"]
         base, out0, _ = l3gen.run_real(ctx.binary, w, cfg)
         cases.append((w, cfg))
         reals.append(base)
-        for _ in range(per):
+        combos = [rand_presentation(rng) for _ in range(per)]
+        if item is not None:
+            combos = [[], ["-v"], ["-vv"], ["--mmap"], ["-v", "--color", "always"]]      # every verbosity on the corpus
+        for extra in combos:
             c2 = dict(cfg)
-            c2["extra"] = rand_presentation(rng)
+            c2["extra"] = extra
             for x in c2["extra"]:
                 hist["opt " + x] += 1
             r2, out, _ = l3gen.run_real(ctx.binary, w, c2)
